@@ -274,7 +274,7 @@ class NB:
             cands = [[1, total], [total], [1, 1, 1, total]]
             s = X["shape"]
             if len(s) == 4:
-                cands += [[s[0], s[1] * s[2], 1, s[3]], [s[0], s[2], s[1], s[3]], [s[0], 1, s[1] * s[2], s[3]], [s[1], s[2], s[3]], [s[1] * s[2], s[3]]]
+                cands += [[s[0], s[1] * s[2], 1, s[3]], [s[0], s[2], s[1], s[3]], [s[0], 1, s[1] * s[2], s[3]], [s[0] * s[1], s[2], s[3]], [s[0] * s[1] * s[2], s[3]]]
                 if s[0] == 1 and s[1] > 1:
                     cands.append([s[1], 1, s[2], s[3]])  # a leading dimension other than 1
             if len(s) == 3:
